@@ -32,7 +32,7 @@ def run(module, cfg, workers=8, timeout=900, simulate=None, depth=None, seed=Non
         cmd.append("-Dtlc2.tool.queue.IStateQueue=StateDeque")
     cmd += ["-cp", JAR, "tlc2.TLC", "-workers", str(workers), "-metadir", md, "-config", os.path.join(SPEC, "mc", cfg)]
     if not deadlock:
-        cmd.append("-deadlock")        # do not report deadlocks (generators end on purpose)
+        cmd += ["-deadlock", "-noGenerateSpecTE"]   # generators end on purpose; no trace-explorer files
     if simulate:
         cmd += ["-simulate", "num=%d" % simulate]
         if depth: cmd += ["-depth", str(depth)]
